@@ -9,7 +9,7 @@ CONSTANTS
   K = 2
   SenVals <- SenA
   EnterVals <- EntC
-  MaxIds = 3
+  MaxIds = 2
   MaxFrames = 4
 INVARIANTS Exact NoWrap BestBounds
 VIEW TourView
